@@ -17,11 +17,11 @@ func init() {
 	register("C11",
 		"Structural necessary conditions of C11 decided from /repo's SSA: (bijection) the report's item list shows each of the 22 counters of the JSON v1 struct exactly once (plus one item per tallied refgroup) with distinct v2 symbols, both the table and JSON v2 are produced from that single list, and v1 marshals the same struct; (same-value) a table row formats, the concern rule judges and JSON v2 emits the same value of the same item, and v2's levelOfConcern/referenceValue are float64(value)/scale and scale; (rule) levelOfConcern is interpreted over the atoms overflow, alert<threshold, alert>30 and must be: overflow ⇒ 30 bangs and shown, alert<threshold ⇒ hidden, alert>30 ⇒ bangs, else stars[:int(alert)], with positive scale constants; a row is emitted iff that function says shown; (empty) the `No problems` line is returned iff nothing was emitted and section headers are written only together with rows. Not decided: the human-readable rendering of a value (C12), monotonicity as a relation between two runs.",
 		[]string{"encoding/json marshals struct fields and map keys deterministically"},
-		ruleC11Bijection, ruleC11SameValue, ruleC11Rule, ruleC11Empty)
+		ruleC11Bijection, ruleC11SameValue, ruleC11Rule, ruleC11Empty, ruleC11Precision)
 	register("C12",
 		"Structural necessary conditions of C12 decided from /repo's syntax, constants and SSA — the thinnest claim of the nineteen, since the heart of C12 (correct rounding, half-unit error, monotonicity over 2^64 values) is numeric and NOT decided: (tables) the i-th multiplier of the metric table is 1000^i and of the binary table 1024^i with the SI/IEC prefix names, so the tables are non-empty, start at 1 and strictly increase; (exact) values below the first prefix are printed with an integer verb from the integer itself; (selection) the prefix loop is an ascending scan keeping the last prefix whose quotient is >= 1; (precision) for every branch of the precision switch, whole part in [L,U] with verb %.Pf gives at least three significant digits and at most five characters, U for the last prefix being floor((2^64-1)/multiplier).",
 		[]string{"fmt's %f rounding", "float64 conversion of uint64 (not decided)"},
-		ruleC12Tables, ruleC12Exact, ruleC12Selection, ruleC12Precision)
+		ruleC12Tables, ruleC12Exact, ruleC12Selection, ruleC12Precision, ruleC12Mantissa)
 }
 
 // ---------------- C11 ----------------
@@ -746,5 +746,98 @@ func ruleC12Precision(c *Ctx) {
 		} else {
 			c.violate("C12.precision", key, sp.Pos(), name, fmt.Sprintf("with whole part in [%d,%d] the verb %s shows %d significant digit(s) and up to %d characters (need >= 3 and <= 5)", lo, hi, fs, sig, width))
 		}
+	}
+}
+
+// ruleC11Precision: the threshold the rows are compared with is parsed at
+// the precision of the ratio it is compared with (float64), whether it
+// comes from the option or from gitconfig.
+func ruleC11Precision(c *Ctx) {
+	n := 0
+	for _, f := range c.ModFns {
+		allInstrs(f, func(in ssa.Instruction) {
+			call, ok := in.(*ssa.Call)
+			if !ok || calleeQ(&call.Call) != "strconv.ParseFloat" {
+				return
+			}
+			// does the result become a Threshold?
+			isThreshold := false
+			for _, r := range *call.Referrers() {
+				if ex, ok := r.(*ssa.Extract); ok && ex.Index == 0 {
+					for _, rr := range *ex.Referrers() {
+						if cv, ok := rr.(*ssa.ChangeType); ok && isNamed(cv.Type(), modPath+"/sizes", "Threshold") {
+							isThreshold = true
+						}
+						if cv, ok := rr.(*ssa.Convert); ok && isNamed(cv.Type(), modPath+"/sizes", "Threshold") {
+							isThreshold = true
+						}
+					}
+				}
+			}
+			if !isThreshold {
+				return
+			}
+			n++
+			bits, _ := constInt(call.Call.Args[1])
+			if bits == 64 {
+				c.hold("C11.rule", "threshold-precision@"+fnName(f), call.Pos(), "threshold parsed as float64, the type of value/reference")
+			} else {
+				c.violate("C11.rule", "threshold-precision@"+fnName(f), call.Pos(), fnName(f), fmt.Sprintf("the threshold is parsed with bit size %d and then compared with the float64 ratio value/reference: a row whose ratio equals the threshold as typed (e.g. 0.1) is hidden or shown depending on float32 rounding", bits))
+			}
+		})
+	}
+	if n < 2 {
+		c.violate("C11.rule", "threshold-precision", token.NoPos, "", fmt.Sprintf("expected the option and the gitconfig threshold parsers, found %d", n))
+	}
+}
+
+// ruleC12Mantissa: the number handed to the float verb is one correctly
+// rounded division float64(value)/float64(multiplier of the chosen prefix);
+// anything else (pre-truncated or re-composed mantissas) rounds twice.
+func ruleC12Mantissa(c *Ctx) {
+	f := c.fn("/counts", "*Humaner", "FormatNumber")
+	if f == nil {
+		return
+	}
+	name := fnName(f)
+	n := f.Params[1]
+	var sp *ssa.Call
+	allInstrs(f, func(in ssa.Instruction) {
+		if call, ok := in.(*ssa.Call); ok && calleeQ(&call.Call) == "fmt.Sprintf" {
+			if _, isConst := constStr(call.Call.Args[0]); !isConst {
+				sp = call
+			}
+		}
+	})
+	if sp == nil {
+		return
+	}
+	good := false
+	for _, el := range c.sliceElemValues(sp.Call.Args[1]) {
+		mi, ok := el.(*ssa.MakeInterface)
+		if !ok {
+			continue
+		}
+		q, ok := mi.X.(*ssa.BinOp)
+		if !ok || q.Op != token.QUO {
+			continue
+		}
+		num, ok1 := q.X.(*ssa.Convert)
+		den, ok2 := q.Y.(*ssa.Convert)
+		if !ok1 || !ok2 || num.X != ssa.Value(n) {
+			continue
+		}
+		_, p := c.fieldPath(c.resolve(den.X))
+		if len(p) > 0 && p[len(p)-1] == "Multiplier" {
+			good = true
+		}
+		if fld, ok := den.X.(*ssa.Field); ok && fieldOfVal(fld).Var.Name() == "Multiplier" {
+			good = true
+		}
+	}
+	if good {
+		c.hold("C12.mantissa", "single-division", sp.Pos(), "the formatted number is float64(value)/float64(prefix.Multiplier): one rounding before fmt's own")
+	} else {
+		c.undecided("C12.mantissa", "single-division", sp.Pos(), name, "the number handed to the %.Nf verb is not the single division float64(value)/float64(multiplier of the chosen prefix): a truncated or re-composed mantissa is rounded twice and can be off by more than half a unit in the last digit")
 	}
 }
